@@ -209,15 +209,16 @@ pub fn replay(ctx: &Arc<Ctx>, v: &Value) {
 pub fn run(ctx: &Arc<Ctx>) {
     refmodels::selftest::run(&["sm3", "sm2"]).unwrap_or_else(|e| ctx.machinery_error(format!("reference self-test failed: {}", e)));
     let n = sm2::params().n.clone();
-    ctx.set_rule("every message length 1..=300 x {C1C2C3,C1C3C2} x {compressed,uncompressed} x content {zero, seeded} with fixed (d,k); keys {Annex d, n-2, seeded} x nonce alphabet at lengths {1,32,33}; longer messages; KDF for every klen 1..=300 and {1024,4096,65537} x 2 Z values; library-with-real-RNG ciphertexts decrypted by the reference; OpenSSL DER ciphertext corpus. Per case: ciphertext = reference ciphertext byte for byte for the accepted nonce, reference decryptor recovers M, library round trip, library decrypts a reference-made ciphertext.");
+    ctx.set_rule("every message length 1..=300 (thorough 1..=1200) x {C1C2C3,C1C3C2} x {compressed,uncompressed} x content {zero, seeded} with fixed (d,k); keys {Annex d, n-2, seeded} x nonce alphabet at lengths {1,32,33}; longer messages; KDF for every klen 1..=300 and {1024,4096,65537} x 2 Z values; library-with-real-RNG ciphertexts decrypted by the reference; OpenSSL DER ciphertext corpus. Per case: ciphertext = reference ciphertext byte for byte for the accepted nonce, reference decryptor recovers M, library round trip, library decrypts a reference-made ciphertext.");
     let ks = scalar_alphabet(&n, ctx.seed, "c05k", 1);
     let ds: Vec<(String, BigUint)> = vec![("annex".into(), hb(ANNEX_D)), ("n-2".into(), &n - 2u32), ("seed".into(), SplitMix::new(ctx.seed, "c05d").nonzero_below(&(&n - 1u32)))];
     let lmax = 300usize;
     let mut cases = Vec::new();
     cases.push(Case::Enc { d: ANNEX_D.into(), k: ANNEX_K.into(), msg_len: 19, msg_class: "annex-enc".into(), c1c3c2: false, compressed: false, tag: "annex".into() });
     let nkeys = ctx.tier.pick(1usize, 3);
+    let mlen_max = ctx.tier.pick(300usize, 1200);
     for (dn, d) in ds.iter().take(nkeys) {
-        for l in 1..=lmax {
+        for l in 1..=mlen_max {
             for c1c3c2 in [false, true] {
                 for compressed in [false, true] {
                     for mc in ["zero", "seed"] {
